@@ -102,7 +102,7 @@ def decoder():
     Task of this function is to recognize packets in the form of:
       $foo-bar#00
     or
-      +
+      + (ack) / - (nack)
 
     This function is a generator object which can be paused in the middle.
     """
@@ -122,7 +122,7 @@ def decoder():
                     res.extend(byte)
                     byte = yield res.decode("ascii")
                     break
-        elif byte == b"+":
+        elif byte in (b"+", b"-"):
             byte = yield byte.decode("ascii")
         else:
             if not isinstance(byte, bytes):
